@@ -157,6 +157,31 @@ def shapes(pat):
     yield dict(name="star-vs-positions/known-target", ast=ins(q), scope=[t1], target=tg, target_cols=TARGET_COLS[:3], oracle=("star-positions", t1))
 
 
+def aux_scripts():
+    """correspondence-only cases (implementation vs Lean model; no oracle of the property speaks about them): session metadata of an
+    earlier statement — consulted only behind the `bool(provider)` gates — and tables in the placeholder schema, which the repair of
+    unresolved columns never looks up"""
+    sa_t1, sa_t2, tg = "sa.t1", "sa.t2", "sa.tgt"
+    create = ["create_table", tgt_parts(tg), False, [["p", "int"], ["q", "int"]]]
+    ins2 = ["insert", "into", False, tgt_parts(tg), None, G.select([G.item(G.col("a1")), G.item(G.col("b1"))], [G.from_expr(T(sa_t1))]), False]
+    unq = ["insert", "into", False, tgt_parts(tg), None,
+           G.select([G.item(G.col("id"), "k0", True), G.item(G.col("c"), "k1", True)],
+                    [G.from_expr(G.table("t1", None, "x"), [G.join(T(sa_t2, "y"), G.eq(G.col("jk", "x"), G.col("jk", "y")))])]), False]
+    create_src = ["create_table", tgt_parts(sa_t1), False, [["id", "int"], ["a", "int"]]]
+    unq2 = ["insert", "into", False, tgt_parts(tg), None,
+            G.select([G.item(G.col("id"), "k0", True), G.item(G.col("c"), "k1", True)],
+                     [G.from_expr(T(sa_t1, "x"), [G.join(T(sa_t2, "y"), G.eq(G.col("jk", "x"), G.col("jk", "y")))])]), False]
+    out = []
+    for name, stmts, mds in (
+        ("session-target-then-insert", [create, ins2], [None, {}, {"sa.t1": ["a1", "b1"]}, {"sa.tgt": ["r", "s"]}]),
+        ("placeholder-schema-table", [unq], [None, {"<default>.t1": ["id"], "sa.t2": ["c"]}, {"sa.t2": ["id", "c"]}]),
+        ("session-source-then-join", [create_src, unq2], [None, {}, {"sa.t2": ["c"]}, {"sa.t2": ["id", "c"]}]),
+    ):
+        for md in mds:
+            out.append((name, stmts, md))
+    return out
+
+
 def scope_tables(sh):
     return sh["scope"] + ([sh["target"]] if sh.get("target") and (sh.get("target_cols") or sh.get("target_meta")) and sh["ast"][0] == "insert" else [])
 
@@ -494,6 +519,22 @@ def run(chk):
                     if not bad and len(chk.stale) < 10:
                         chk.stale.append({"kind": "c13-model", "sql": sh["sql"], "metadata": j["md"], "provider": j["provider"],
                                           "impl_paths": ip, "model_paths": mp})
+    # ---- auxiliary correspondence (session metadata, placeholder schema): implementation vs model only
+    aux = aux_scripts()
+    arend = drv.ask([{"cmd": "render", "stmts": ss} for _, ss, _ in aux])
+    aimpl = [run_case13({"sql": r["sql"], "dialect": dialect, "provider": (None if md is None else "dict"), "metadata": md})
+             for (_, ss, md), r in zip(aux, arend)]
+    amodel = drv.ask([dict({"cmd": "sqlfx", "stmts": ss}, **({} if md is None else {"metadata": md if md else UNRELATED})) for _, ss, md in aux])
+    for (name, ss, md), r, i, a in zip(aux, arend, aimpl, amodel):
+        chk.count(canon_json(["aux", r["sql"], md]), True)
+        st.c["aux:" + name] += 1
+        ip = i["result"]["paths"] if "result" in i else i
+        mp = c02.model_paths(model_answer(a))
+        if ip == mp:
+            st.c["model:agree"] += 1
+        else:
+            st.c["model:DISAGREE"] += 1
+            chk.stale.append({"kind": "c13-model-aux", "case": name, "sql": r["sql"], "metadata": md, "impl_paths": ip, "model_paths": mp})
     # both providers must agree with each other on identical metadata
     byk = collections.defaultdict(dict)
     for j, res in zip(jobs, results):
